@@ -6,7 +6,7 @@ from . import ref
 NAMES = ["a", "b", "c", "x", "y", "z", "foo", "bar_1", "v.w", "_t", "k9", "é", "éa1", "#k", "@m", "T", "nota", "inn", "ORx",
          "e", "E1", "None", "null", "nan", "inf", "x.y.z", "a_", "self", "truex", "Falsey", "i", "_", "a.1", "q" * 40,
          # the boundary characters of every identifier class: a z A Z 0 9
-         "az", "AZ", "taxZone", "zA9", "Zz.z_Z0", "a0z9", "yZ"]
+         "az", "AZ", "taxZone", "zA9", "Zz.z_Z0", "a0z9", "yZ", "TRUE", "FALSE", "tRue", "fALSE", "NOT", "In", "and", "or"]
 FNAMES = ["f", "g", "h2", "min", "max", "sum", "mul", "fn_1", "é"]
 STRS = ["", "a", "ab", "é", "a b", "it's", 'say "hi"', "x+y", "in", "1,2", "(", "\t", "日本", " ", "not", "]", ";",
         "\\", "\\n", "a\\tb", "\x00", "\n", "\r\n", "?:", "true", "1e5", "#", "s" * 300, "))", "[{", "a'b'c", 'x"y"z', "😀", "\u00a0",
